@@ -17,7 +17,7 @@ var badInput = []int64{-999999}
 type opT struct {
 	Code int64
 	Pod  cachectl.PodSpec
-	Node sched.NodeSpec
+	Node cachectl.NodeX
 	PG   cachectl.PGSpec
 	A    []int64 // ids
 	OK   bool
@@ -31,10 +31,21 @@ func (o opT) enc() []int64 {
 		return []int64{1, p.ID, p.Job, p.Node, p.Phase, vh.B(p.Deleting), p.Role, p.Prio, vh.B(p.Preempt), p.CPU, p.Mem, p.GPU}
 	case 3:
 		n := o.Node
-		return []int64{3, n.ID, n.CPU, n.Mem, n.Pods, n.GPU}
+		out := []int64{3, n.ID, n.CPU, n.Mem, n.Pods, n.GPU}
+		if n.OverCPUSet {
+			out = append(out, 1, n.OverCPU)
+		} else {
+			out = append(out, 0)
+		}
+		if n.OverMemSet {
+			out = append(out, 1, n.OverMem)
+		} else {
+			out = append(out, 0)
+		}
+		return append(out, vh.B(n.OverNode), vh.B(n.Offline), n.Zone, vh.B(n.Unsched), vh.B(n.Tainted), vh.B(n.NotRdy))
 	case 5:
 		g := o.PG
-		return []int64{5, g.ID, g.UID, g.Queue, g.Min}
+		return []int64{5, g.ID, g.UID, g.Queue, g.Min, g.Conds, vh.B(g.Ann)}
 	case 9, 10, 13:
 		return []int64{o.Code}
 	case 11:
@@ -103,9 +114,18 @@ func decCase(in []int64) (ops []opT, ok bool) {
 			}
 			o.Pod = p
 		case 3:
-			o.Node = sched.NodeSpec{ID: pos(), Has: true, CPU: next(), Mem: next(), Pods: next(), GPU: next()}
+			n := cachectl.NodeX{NodeSpec: sched.NodeSpec{ID: pos(), Has: true, CPU: next(), Mem: next(), Pods: next(), GPU: next()}}
+			if next() != 0 {
+				n.OverCPUSet, n.OverCPU = true, next()
+			}
+			if next() != 0 {
+				n.OverMemSet, n.OverMem = true, next()
+			}
+			n.OverNode, n.Offline, n.Zone = next() != 0, next() != 0, next()
+			n.Unsched, n.Tainted, n.NotRdy = next() != 0, next() != 0, next() != 0
+			o.Node = n
 		case 5:
-			o.PG = cachectl.PGSpec{ID: pos(), UID: next(), Queue: next(), Min: next()}
+			o.PG = cachectl.PGSpec{ID: pos(), UID: next(), Queue: next(), Min: next(), Conds: next(), Ann: next() != 0}
 			if o.PG.Queue < 0 {
 				fail = true
 			}
@@ -169,7 +189,7 @@ func apply(c *cachectl.Ctl, o opT) int64 {
 // of C08/Model.v build_events: pods, PodGroups, nodes, queues, ascending ids
 func freshFromFinal(ops []opT) *cachectl.Ctl {
 	pods := map[int64]cachectl.PodSpec{}
-	nodes := map[int64]sched.NodeSpec{}
+	nodes := map[int64]cachectl.NodeX{}
 	pgs := map[int64]cachectl.PGSpec{}
 	queues := map[int64]bool{}
 	for _, o := range ops {
@@ -221,13 +241,16 @@ func run(sel int, in []int64) []int64 {
 			if o.Code == 13 {
 				before := c.Dump()
 				ci, enc := c.Snapshot()
+				fp := cachectl.Fingerprint(c.SC) // after Snapshot(): it refreshes job priorities in the cache itself
 				cachectl.MutateSnapshot(ci)
+				same := vh.B(cachectl.Fingerprint(c.SC) == fp)
 				out = append(out, -104)
 				out = append(out, before...)
 				out = append(out, -102)
 				out = append(out, enc...)
 				out = append(out, -103)
 				out = append(out, c.Dump()...)
+				out = append(out, -105, same)
 				continue
 			}
 			res := apply(c, o)
@@ -272,7 +295,7 @@ func quiescent(ops []opT) bool {
 
 // split the output of selector 1 at the step markers
 func segments(got []int64) (marks []int64, segs [][]int64) {
-	isMark := func(v int64) bool { return v <= -101 && v >= -104 }
+	isMark := func(v int64) bool { return v <= -101 && v >= -105 }
 	i := 1
 	for i < len(got) {
 		if !isMark(got[i]) {
@@ -305,9 +328,10 @@ func laws(sel int, in, got []int64, law func(lsel int, lin []int64, sig string))
 			law(101, last, "")
 		case -104:
 			// -104 before, -102 snapshot, -103 after the snapshot was mutated
-			before, snap, after := segs[k], segs[k+1], segs[k+2]
+			// -105: 1 when a deep fingerprint of everything reachable from the cache is unchanged too
+			before, snap, after, same := segs[k], segs[k+1], segs[k+2], segs[k+3]
 			law(104, cat(before, snap), "")
-			law(103, cat(before, after), "")
+			law(103, cat(cat(before, after), same), "")
 		}
 	}
 	if last != nil && quiescent(ops) {
